@@ -6,7 +6,7 @@ import ast
 from dataclasses import dataclass
 
 from ..core import AnalysisError, Check, Scope, is_self_attr, norm, strip_docstring, walk_no_nested
-from ..interp import PathInterp
+from ..interp import PathInterp, Sym, SymInterp
 from ..timeq import ABS, DUR, OTHER, REL, Env, TimeInterp
 from ..variants import Variant
 
@@ -117,6 +117,22 @@ class HandlerInterp(PathInterp):
             return
         yield ("normal", HS(f, p, e, st.case))
 
+    def cond(self, test, st: HS):
+        """`isinstance(<result value>, TimeCourse)` (possibly negated) splits into the success and the failure case."""
+        pol = True
+        t = test
+        while isinstance(t, ast.UnaryOp) and isinstance(t.op, ast.Not):
+            pol, t = not pol, t.operand
+        if isinstance(t, ast.Call) and norm(t.func) == "isinstance" and len(t.args) == 2 and st.case == "":
+            cls_ = norm(t.args[1])
+            if cls_.endswith("TimeCourse"):
+                yes, no = HS(st.frames, st.params, st.errors, "success"), HS(st.frames, st.params, st.errors, "failure")
+                return ([yes], [no]) if pol else ([no], [yes])
+            if cls_.endswith(("Exception", "BaseException", "Failure", "Error")) or cls_ == "Exception":
+                yes, no = HS(st.frames, st.params, st.errors, "failure"), HS(st.frames, st.params, st.errors, "success")
+                return ([yes], [no]) if pol else ([no], [yes])
+        return [st], [st]
+
     def stmt(self, s, st):
         if isinstance(s, ast.Match):
             from ..interp import Outcome
@@ -200,7 +216,7 @@ class C04(Check):
               "would be altered for every later call",
         "T6": "refusal condition is `requested_end <= reached` in both continuation entry points",
     }
-    floors = {"T1": 8, "T2": 6, "T3": 3, "T4": 3, "T5": 4, "T6": 2, "T7": 2}
+    floors = {"T1": 5, "T2": 6, "T3": 3, "T4": 3, "T5": 4, "T6": 2, "T7": 2}
     decided = [
         "the accumulated result is indexed by absolute time and every time comparison compares like with like",
         "a continuation is refused exactly when the requested end is not later than the time reached (in absolute time)",
@@ -354,46 +370,69 @@ class C04(Check):
                           witness="simulate(5); simulate(10): the row at t=5 appears twice (or the first row of the first segment is lost)")
 
     def t4(self, mod) -> None:
+        """Path summaries of update_variables (expressions propagated to the entry values, so staging through locals does not matter)."""
+        import re
+
         fn = mod.func(f"{CLS}.update_variables")
         q = f"{CLS}.update_variables"
         param = fn.args.args[1].arg
-        body = strip_docstring(fn.body)
-        tail = [s for s in body if not isinstance(s, ast.If)]
-        alias = {}
-        for s in body:
-            if isinstance(s, ast.Assign) and isinstance(s.targets[0], ast.Name):
-                alias[s.targets[0].id] = norm(s.value)
-        y0s = [s for s in tail if isinstance(s, ast.Assign) and is_self_attr(s.targets[0], "y0")]
-        shifts = [s for s in tail if isinstance(s, ast.Assign) and is_self_attr(s.targets[0], "_time_shift")]
-        inits = [s for s in tail if isinstance(s, ast.Expr) and norm(s.value) == "self._initialise_integrator()"]
-        if not y0s or not shifts:
-            raise AnalysisError(f"{q}: continuation branch not recognised")
-        v = y0s[-1].value
-        frames = [k for k, t in alias.items() if t == "self.variables"] + ["self.variables"]
-        ok_merge = isinstance(v, ast.BinOp) and isinstance(v.op, ast.BitOr) and norm(v.right) == param and \
-            any(norm(v.left).startswith(f"{f}[-1].iloc[-1") for f in frames)
-        if ok_merge:
-            self.holds("T4", SIM, q, "y0-merge", y0s[-1], f"y0 := last row | {param} (right-biased: overrides win)")
+        out = SymInterp().run_function(fn, Sym())
+        paths = [st for st, _ in out.returns]
+
+        def polarity(st):
+            for c, p in st.conds:
+                if c == "self.variables is None":
+                    return p
+                if c == "self.variables is not None":
+                    return not p
+                if c == "self.variables":
+                    return not p
+            return None
+
+        first = [st for st in paths if polarity(st) is True]
+        cont = [st for st in paths if polarity(st) is False]
+        if not first or not cont or len(first) + len(cont) != len(paths):
+            raise AnalysisError(f"{q}: first-run / continuation paths not recognised")
+
+        def last_set(st, attr):
+            idx = [i for i, e in enumerate(st.events) if e[0] == "set" and e[1] == attr]
+            return (idx[-1], st.events[idx[-1]][2]) if idx else (None, None)
+
+        def node_of(attr, pol):
+            for n in ast.walk(fn):
+                if isinstance(n, ast.Assign) and is_self_attr(n.targets[0], attr.split(".")[1]):
+                    return n
+            return fn
+
+        last_row = re.compile(r"^self\.variables\[-1\]\.iloc\[-1(, :)?\](\.to_dict\(\))? \| " + re.escape(param) + "$")
+        bad = [st for st in cont if not last_row.match(last_set(st, "self.y0")[1] or "")]
+        n_y0 = node_of("self.y0", False)
+        if not bad:
+            self.holds("T4", SIM, q, "y0-merge", n_y0, f"y0 := last row | {param} (right-biased: overrides win)")
         else:
-            self.violated("T4", SIM, q, "y0-merge", y0s[-1],
-                          f"`{norm(v)}` is not `last row | {param}`: the restart state loses the override or the reached state",
+            self.violated("T4", SIM, q, "y0-merge", n_y0,
+                          f"`{last_set(bad[0], 'self.y0')[1]}` is not `last row | {param}`: the restart state loses the override or the reached state",
                           witness="simulate(5); update_variable('x', 2); simulate(10) continues from the un-overridden x (or from the initial y)")
-        first = [st for st in body if isinstance(st, ast.If)]
-        fb = [x for st in first for x in st.body if isinstance(x, ast.Assign) and is_self_attr(x.targets[0], "y0")]
-        if fb:
-            fv = fb[0].value
-            if isinstance(fv, ast.BinOp) and isinstance(fv.op, ast.BitOr) and norm(fv.left) == "self.y0" and norm(fv.right) == param:
-                self.holds("T4", SIM, q, "y0-merge-before-first-run", fb[0], f"before any run: y0 := y0 | {param} (overrides win)")
-            else:
-                self.violated("T4", SIM, q, "y0-merge-before-first-run", fb[0], f"`{norm(fv)}` is not `self.y0 | {param}`: an override given before the first run is lost",
-                              witness="Simulator(m).update_variable('x', 2.0).simulate(1) starts from the model's x")
-        sv = norm(shifts[-1].value)
-        if any(sv in (f"float({f}[-1].index[-1])", f"{f}[-1].index[-1]") for f in frames):
-            self.holds("T4", SIM, q, "shift-is-last-abs-time", shifts[-1], "_time_shift := last absolute time of the result")
+        badf = [st for st in first if last_set(st, "self.y0")[1] != f"self.y0 | {param}"]
+        if not badf:
+            self.holds("T4", SIM, q, "y0-merge-before-first-run", n_y0, f"before any run: y0 := y0 | {param} (overrides win)")
         else:
-            self.violated("T4", SIM, q, "shift-is-last-abs-time", shifts[-1], f"_time_shift := {sv} is not the last absolute time reached")
-        if inits and tail.index(inits[-1]) > max(tail.index(y0s[-1]), tail.index(shifts[-1])):
-            self.holds("T4", SIM, q, "reinitialise-after", inits[-1], "integrator re-initialised after y0 and _time_shift are set")
+            self.violated("T4", SIM, q, "y0-merge-before-first-run", n_y0, f"`{last_set(badf[0], 'self.y0')[1]}` is not `self.y0 | {param}`: an override given before the first run is lost",
+                          witness="Simulator(m).update_variable('x', 2.0).simulate(1) starts from the model's x")
+        n_sh = node_of("self._time_shift", False)
+        bads = [st for st in cont if last_set(st, "self._time_shift")[1] not in ("float(self.variables[-1].index[-1])", "self.variables[-1].index[-1]")]
+        if not bads:
+            self.holds("T4", SIM, q, "shift-is-last-abs-time", n_sh, "_time_shift := last absolute time of the result")
+        else:
+            self.violated("T4", SIM, q, "shift-is-last-abs-time", n_sh, f"_time_shift := {last_set(bads[0], 'self._time_shift')[1]} is not the last absolute time reached")
+        late = []
+        for st in paths:
+            calls = [i for i, e in enumerate(st.events) if e[0] == "call" and e[1] == "self._initialise_integrator()"]
+            sets = [i for i in (last_set(st, "self.y0")[0], last_set(st, "self._time_shift")[0]) if i is not None]
+            if not calls or (sets and calls[-1] < max(sets)):
+                late.append(st)
+        if not late:
+            self.holds("T4", SIM, q, "reinitialise-after", fn, "integrator re-initialised after y0 and _time_shift are set, on every path")
         else:
             self.violated("T4", SIM, q, "reinitialise-after", fn, "the integrator is not re-initialised after the override: it continues from the old state")
 
